@@ -511,7 +511,10 @@ def _expand(u, path, canary):
             lm = line_map(r["orig"], r["start_line"], r["text"])
             item_start = len(u.lines) + 1
             for k, l in enumerate(r["text"].split("\n")):
-                u.emit(l, ("repo", file, lm[k]))
+                u.emit(l, ("repo", file, lm[k] if k < len(lm) else None))
+                ml = LABEL_RE.search(l)
+                if ml:
+                    u.labels[len(u.lines)] = ml.group(1)
             item_end = len(u.lines)
             u.functions.append({"key": "item:" + file + "::" + selector, "mode": "item", "file": file,
                                 "selector": selector, "name": selector, "repo_line": r["start_line"],
